@@ -265,14 +265,11 @@ Fixpoint suffixes (s : bstr) : list bstr :=
   match s with [] => [[]] | _ :: r => s :: suffixes r end.
 Definition contains (s t : bstr) : bool := existsb (is_prefix t) (suffixes s).
 
-(* i, i+step, i+2 step, ... below limit; [count] bounds the length *)
-Fixpoint count_up (count : nat) (i limit step : Z) : list value :=
-  match count with
-  | O => []
-  | S c => if (i <? limit)%Z then VInt i :: count_up c (i + step)%Z limit step else []
-  end.
+(* i, i+step, i+2 step, ... as long as below limit: ceil((limit - i) / step) elements (step > 0) *)
+Definition range_count (i limit step : Z) : nat :=
+  if (i <? limit)%Z then Z.to_nat ((limit - i + step - 1) / step) else 0%nat.
 Definition range_values (i limit step : Z) : list value :=
-  count_up (Z.to_nat (limit - i)) i limit step.
+  map (fun k => VInt (i + Z.of_nat k * step)%Z) (seq 0 (range_count i limit step)).
 
 Definition merge_maps (m1 m2 : list (bstr * value)) : list (bstr * value) :=
   fold_left (fun acc kv => map_set acc (fst kv) (snd kv)) m2 m1.
